@@ -453,6 +453,8 @@ def run_factors(case, only=None):
         rows.append(nrows)
         lens.append([_safe_len(o) for o in objs])
         del sink[:]
+        if any(l is not None and l > 50 * max(1, w) for l, w in zip(lens[-1], own)):
+            break       # a length that keeps growing makes every further sample bigger: the oracle below already has its failing input
     attrs_ok = all(getattr(o, "n_points", None) == d["n_points"] and getattr(o, "density", None) == d["density"] for o, d in zip(objs, decl))
     return dict(outs=outs, lens=lens, rows=rows, own=own, attrs_ok=attrs_ok)
 
@@ -849,7 +851,7 @@ def judge_deeponet(rep, case, res, alone, replies):
         return
     for j in range(len(case["subs"])):
         mine = [st["loss"] for st in res["steps"] if st["j"] == j]
-        al = [st["loss"] for st in alone[j]["steps"]]
+        al = [st["loss"] for st in alone[j]["steps"] if st["j"] == j]
         if mine != al:
             rep.fail(f"DeepONet condition {j} returns {mine} over the iterations in company (shared DeepONet and function set, "
                      f"order of evaluation {case['steps']}) but {al} when it is the only condition", case,
@@ -989,9 +991,9 @@ def run(ctx, rep, cases=None, _intensify=True):
     def keytok(c, k):
         v = (c.get("keys") or list(range(c["calls"])))[k]
         return "none" if v is None else str(v)
-    fs_replies = common.run_driver("C14", ["fs " + lst([keytok(c, k) for k, _ in r.get("ran_steps", [])]) for c, (r, _) in zip(dons, dres)])
+    fs_replies = common.run_driver("C14", ["fs " + lst([keytok(c, k) for k, j_ in r.get("ran_steps", []) if j_ != "D"]) for c, (r, _) in zip(dons, dres)])
     for c, (r, _), m in zip(dons, dres, fs_replies):
-        got = " ".join(str(st["batch"]) for st in r["steps"])
+        got = " ".join(str(st["batch"]) for st in r["steps"] if st["j"] != "D")
         if not r["errors"] and got != m.strip():
             rep.disagree("function-set batches: drivers/C14.lean `fs` vs the draws of the shared function set", c, got, m)
     for i, (c, (r, al)) in enumerate(zip(dons, dres)):
